@@ -143,6 +143,10 @@ struct Args
     std::vector<int> orders; // restrict orders
 };
 
+struct Ctx;
+// called at the start of every case with the case's seed (drivers install it to pick the adapters' calling-idiom routes)
+inline void (*g_beginCaseHook)(Ctx &, uint64_t) = nullptr;
+
 struct Ctx
 {
     Args a;
@@ -186,7 +190,10 @@ struct Ctx
         cells[cell_]++;
         snprintf(g_case_desc, sizeof g_case_desc, "prop=%s cell=%s case=%llu seed=%llu", a.prop.c_str(), cell_.c_str(),
                  (unsigned long long)idx, (unsigned long long)a.seed);
-        return Rng(mix64(mix64(a.seed, prop_hash), mix64(hashStr(cell_.c_str()), idx)));
+        const uint64_t caseSeed = mix64(mix64(a.seed, prop_hash), mix64(hashStr(cell_.c_str()), idx));
+        if (g_beginCaseHook)
+            g_beginCaseHook(*this, caseSeed);
+        return Rng(caseSeed);
     }
     void nontrivial(uint64_t h) { hashes.insert(h); }
     void event(const std::string &name, uint64_t n = 1) { counters[name] += n; }
